@@ -74,10 +74,11 @@ def ir_specs(special=None, lens=None, dense=None, toggle=None):
         spec = {"id": ids[idn % len(ids)], "toggle": tog if toggle is None else toggle, "modes": modes,
                 "tmin": lo, "tmax": hi, "density": dens if dense is None else (100 if dense else dens),
                 "seed": seed, "lens": ln if lens is None else lens, "fun": bool(use_special), "off": off}
-        if seed % 7 == 0 and hi > lo:
-            spec["lonely_min"] = True
-        if seed % 5 == 0:
-            spec["auto_temps"] = [max(10, lo - 3), min(60, hi + 4)]
+        if not dense:
+            if seed % 7 == 0 and hi > lo:
+                spec["lonely_min"] = True
+            if seed % 5 == 0:
+                spec["auto_temps"] = [max(10, lo - 3), min(60, hi + 4)]
         return spec
     return st.tuples(
         st.booleans(), st.integers(0, 9), st.booleans(), st.integers(1, 31),
